@@ -178,8 +178,40 @@ def jsonable(v):
     return v
 
 
+def check_harness(reg, c, raw_args):
+    """fragment contracts: the sidecar's harness runs the real enclosing function (opaque callees stubbed) and hands
+    back one environment per stub behaviour; the ensures clauses are evaluated in each"""
+    fails = []
+    with contextlib.redirect_stdout(io.StringIO()):
+        envs = c.rt_harness(raw_args)
+    if envs is None:
+        return None
+    for env in envs:
+        g = dict(reg.globals)
+        g["INF"] = float("inf")
+        g.update(env)
+        for name, src in list(c.ensures.items()) + list(c.rt_only.items()):
+            try:
+                ok = bool(eval(compile_expr(src), g))
+            except NameError:
+                continue
+            except (IndexError, KeyError, ZeroDivisionError) as e:
+                ok = False
+                name = name + " (undefined: %r)" % (e,)
+            if not ok:
+                fails.append({"clause": "%s.ensures.%s" % (c.name, name.split(" ")[0]), "site": c.key + " [harness]",
+                              "detail": {"args": jsonable(raw_args), "clause_src": src,
+                                         "observed": {k: jsonable(v) for k, v in env.items() if not callable(v)},
+                                         "stub": env.get("_stub")}})
+        if fails:
+            break
+    return fails
+
+
 def check_once(reg, c, raw_args, variants=("compiled", "py_func")):
     """returns list of failures for one concrete input (dict name -> raw python value, ghosts included)"""
+    if getattr(c, "rt_harness", None) is not None:
+        return check_harness(reg, c, raw_args)
     fn = resolve(c)
     fails = []
     impls = [("compiled", fn)]
